@@ -384,6 +384,7 @@ func init() {
 			fn             externalFn
 		}{"(*sync/atomic.Pointer[", "])." + m.s, m.f})
 	}
+	externals["sync.NewCond"] = func(fr *frame, args []value) value { return resultZero(fr) }
 	// time: only what error paths and sources touch; no timers are modelled
 	externals["time.Now"] = func(fr *frame, args []value) value { return resultZero(fr) }
 	externals["time.Sleep"] = func(fr *frame, args []value) value {
